@@ -91,7 +91,7 @@ pub fn extreme_word(p: &mut Prng, w: usize, db: usize) -> Vec<u8> {
 }
 
 /// random value in 0..=m (m as LE bytes), biased: uniform-ish, or close to either end
-fn below_incl(p: &mut Prng, m: &[u8]) -> Vec<u8> {
+pub fn below_incl(p: &mut Prng, m: &[u8]) -> Vec<u8> {
     let w = m.len();
     if refint::is_zero(m) {
         return vec![0u8; w];
@@ -190,6 +190,21 @@ fn gen_rsize(p: &mut Prng, w: usize, db: usize, shape_w: &[u32]) -> (Option<Vec<
             if refint::is_zero(&v) {
                 v[0] = 1;
             }
+            Some(v)
+        }
+        12 => {
+            // log-uniform: bit length uniform in 1..=bits, top bit set, the rest random
+            let l = 1 + p.below(bits) as usize;
+            let mut v = p.bytes(w);
+            for (i, x) in v.iter_mut().enumerate() {
+                let lo = i * 8;
+                if lo >= l {
+                    *x = 0;
+                } else if lo + 8 > l {
+                    *x &= ((1u16 << (l - lo)) - 1) as u8;
+                }
+            }
+            v[(l - 1) / 8] |= 1 << ((l - 1) % 8);
             Some(v)
         }
         _ => {
@@ -325,11 +340,25 @@ fn range_call_plan(p: &mut Prng, sw: &Swarm, w: usize, db: usize) -> Vec<Plan> {
 }
 
 fn fill_call_plan(p: &mut Prng, sw: &Swarm, w: usize, db: usize) -> Vec<Plan> {
+    // the current implementation makes one request per fill; a chunking implementation would make several,
+    // so answers (and faults) are planned for the first few requests — unserved entries are simply dropped
     let mut plan = Vec::new();
-    if let Some(f) = fault_plan(p, sw) {
-        plan.push(f);
+    let n = if p.chance(1, 3) { 1 } else { 1 + p.below(6) as usize };
+    let f = fault_plan(p, sw);
+    let fault_at = if p.chance(1, 2) { 0 } else { p.below(n as u64 + 1) as usize };
+    let mut more_faults = if f.is_some() && p.chance(1, 4) { p.below(3) } else { 0 };
+    for i in 0..n {
+        if let (Some(fp), true) = (&f, i == fault_at) {
+            plan.push(fp.clone());
+        } else if i > fault_at && more_faults > 0 && p.chance(1, 2) {
+            more_faults -= 1;
+            plan.push(f.clone().unwrap());
+        }
+        plan.push(first_word(p, sw, w, db));
     }
-    plan.push(first_word(p, sw, w, db));
+    if let (Some(fp), true) = (&f, fault_at >= n) {
+        plan.push(fp.clone());
+    }
     plan
 }
 
@@ -343,6 +372,7 @@ pub fn make_run(seed: u64, run: u64, menu: &[Box<dyn TyObj>]) -> RunSpec {
         0..=13 => 1u8, // cluster run
         14..=21 => 2,  // fault-free twin of the mixed workload
         22 => 3,       // fibre walk: exact fibre sizes at any width
+        23 => 4,       // span probe: exact block sizes of chosen values when fibres are huge
         _ => 0,        // mixed workload with faults
     };
     let faults_on = mode == 0;
@@ -357,7 +387,7 @@ pub fn make_run(seed: u64, run: u64, menu: &[Box<dyn TyObj>]) -> RunSpec {
         dyn_rate: [0, 0, 1, 4][p.below(4) as usize],
     };
     // per-run weights over the bound shapes (swarm): a random subset is switched off
-    let mut shape_w = [6u32, 5, 5, 6, 5, 6, 14, 14, 3, 5, 6, 6];
+    let mut shape_w = [6u32, 5, 5, 6, 5, 6, 14, 14, 3, 5, 6, 6, 8];
     for x in shape_w.iter_mut() {
         if p.chance(1, 4) {
             *x = 0;
@@ -369,7 +399,12 @@ pub fn make_run(seed: u64, run: u64, menu: &[Box<dyn TyObj>]) -> RunSpec {
     let infallible = p.chance(1, 4);
     let fresh_seed = p.next();
     let mut ops = Vec::new();
-    if mode == 3 {
+    if mode == 4 {
+        ops.push(span_op(&mut p, &sw, w, db, signed));
+        if p.chance(1, 2) {
+            ops.push(span_op(&mut p, &sw, w, db, signed));
+        }
+    } else if mode == 3 {
         let (a, b) = walk_ops(&mut p, &sw, w, db, signed);
         ops.push(a);
         ops.push(b);
@@ -490,7 +525,7 @@ fn cluster_op(p: &mut Prng, sw: &Swarm, w: usize, db: usize, signed: bool, shape
 
 /// bounds for a complete word-space sweep (seeded, biased to boundary shapes)
 pub fn sweep_bounds(p: &mut Prng, w: usize, db: usize, signed: bool) -> (Vec<u8>, Vec<u8>) {
-    let shape_w = [2u32, 4, 5, 8, 5, 6, 12, 12, 3, 3, 10, 8];
+    let shape_w = [2u32, 4, 5, 8, 5, 6, 12, 12, 3, 3, 10, 8, 6];
     let (r, _) = gen_rsize(p, w, db, &shape_w);
     place(p, w, db, signed, &r)
 }
@@ -534,4 +569,40 @@ fn walk_ops(p: &mut Prng, sw: &Swarm, w: usize, db: usize, signed: bool) -> (Op,
     let second_edge = p.chance(1, 2);
     let b = mk(p, second_edge);
     (a, b)
+}
+
+/// one sampler configuration whose chosen values' accepted blocks are measured by bisection
+fn span_op(p: &mut Prng, sw: &Swarm, w: usize, db: usize, signed: bool) -> Op {
+    //            1  2..3 2^k 2^k+-1 digit dig-bdry q   q   2^W-1 full uniform small log
+    let weights = [0u32, 3, 4, 8, 14, 6, 5, 5, 2, 1, 6, 10, 16];
+    let (r, shape) = gen_rsize(p, w, db, &weights);
+    let (low, high_incl) = place(p, w, db, signed, &r);
+    let (low, high, inclusive) = api_bounds(p, w, signed, low, high_incl);
+    let rm1 = match &r {
+        Some(r) => refint::add_small(r, -1),
+        None => vec![0xFFu8; w],
+    };
+    let mut targets: Vec<Vec<u8>> = Vec::new();
+    let small = refint::to_u64(&rm1).map(|x| x < 8).unwrap_or(false);
+    if small {
+        for k in 0..=refint::to_u64(&rm1).unwrap() {
+            targets.push(refint::from_u64(k, w));
+        }
+    } else {
+        let n_rand = if w > 160 { 1 } else { 3 + p.below(3) as usize };
+        targets.push(vec![0u8; w]);
+        if w <= 160 {
+            targets.push(refint::from_u64(1, w));
+            targets.push(rm1.clone());
+            targets.push(refint::add_small(&rm1, -1));
+        }
+        for _ in 0..n_rand {
+            targets.push(below_incl(p, &rm1));
+        }
+        targets.sort();
+        targets.dedup();
+    }
+    let via = p.below(3) as u8;
+    let dynamic = p.below(4) < sw.dyn_rate;
+    Op { kind: OpKind::SpanProbe { low, high, inclusive, via, targets }, dynamic, calls: Vec::new(), shape }
 }
